@@ -15,7 +15,7 @@ from .. import harness as H
 ID = "C07"
 LEVEL = "exploration"
 RULE = ("random single-variable queries (depth<=4, the whole C01 condition vocabulary, and queries without any condition) over a one-shot logging iterator of "
-        "4-8 objects, declared with let(T, it) or T(From(it)), possibly mixed with objects of another type (lazy type "
+        "4-8 objects, declared with let(T, it), T(From(it)) or T(From(it), field=constant), possibly mixed with objects of another type (lazy type "
         "filter); histories of 2-5 rounds, each asking for a random number k of results (0..all+1) and then closing or "
         "exhausting the iterator; caching on and off. Non-trivial: some round stops before the end of the domain while "
         "at least one qualifying element is still ahead. distinct by structural hash.")
@@ -58,7 +58,7 @@ def plan(tier, seed):
 
 
 def floors(tier):
-    return {"distinct_nontrivial": 300, "cls:decl:let": 300, "cls:decl:from": 300, "cls:mixed_types": 200,
+    return {"distinct_nontrivial": 300, "cls:decl:let": 300, "cls:decl:from": 300, "cls:decl:from_kw": 200, "cls:mixed_types": 200,
             "cls:round:partial": 500, "cls:round:exhausted": 300, "cls:caching_off": 200, "pull_checks": 3000,
             "cls:no_condition": 100}
 
@@ -71,7 +71,11 @@ def cases(spec, ctx):
         n = len(world["P"])
         mixed = sorted(rng.sample(range(n + 1), rng.randint(1, 2))) if rng.random() < 0.4 else []
         rounds = [[rng.randint(0, n + 1), rng.choice(["close", "close", "drop", "exhaust"])] for _ in range(rng.randint(2, 5))]
-        yield {"world": world, "cond": cond, "decl": rng.choice(["let", "from"]), "mixed": mixed, "rounds": rounds,
+        decl = rng.choice(["let", "let", "from", "from", "from_kw"])
+        kw = {}
+        if decl == "from_kw":       # T(From(it), field=constant, ...): constant field constraints in the term itself
+            kw = {f: rng.randint(1, 3) for f in rng.sample(["a", "b"], rng.randint(1, 2))}
+        yield {"world": world, "cond": cond, "decl": decl, "kw": kw, "mixed": mixed, "rounds": rounds,
                "caching": rng.random() < 0.7, "form": rng.choice(["entity", "entity", "direct"])}
 
 
@@ -85,7 +89,9 @@ def check_case(case, ctx):
     for pos in case["mixed"]:
         items.insert(pos, Other())
     cond = case["cond"]
-    qual = [i for i, o in enumerate(items) if isinstance(o, D.P) and (cond is None or C.holds(cond, (o,)))]
+    kw = case.get("kw") or {}
+    qual = [i for i, o in enumerate(items) if isinstance(o, D.P) and all(getattr(o, f) == v for f, v in kw.items())
+            and (cond is None or C.holds(cond, (o,)))]
     ctx.cls("cls:no_condition" if cond is None else "cls:with_condition")
     ctx.cls("cls:decl:" + case["decl"])
     ctx.cls("cls:caching_on" if case["caching"] else "cls:caching_off")
@@ -95,7 +101,7 @@ def check_case(case, ctx):
     (enable_caching if case["caching"] else disable_caching)()
     try:
         with symbolic_mode():
-            x = let(D.P, li) if case["decl"] == "let" else D.P(From(li))
+            x = let(D.P, li) if case["decl"] == "let" else D.P(From(li), **kw)
             conds = [] if cond is None else [C.build(cond, [x], 0, True)]
             q = an(x, *conds) if case.get("form") == "direct" and conds else an(entity(x, *conds))
         if li.log:
